@@ -40,7 +40,25 @@ impl Backend for SimBackend {
     where
         I: Iterator<Item = (u16, u16, &'a Cell)>,
     {
-        self.inner.draw(content)
+        // A terminal that prints a double-width glyph covers the cell to its right as well;
+        // ratatui's diff does not mention that cell, and a backend that only stores what it is
+        // told (the test backend underneath) would keep whatever an earlier frame left there
+        // - a stale map pin, for instance.  Behave like the terminal.
+        use unicode_width::UnicodeWidthStr;
+        let width = self.size.0;
+        let mut cells: Vec<(u16, u16, Cell)> = Vec::new();
+        for (x, y, c) in content {
+            cells.push((x, y, c.clone()));
+            let w = c.symbol().width() as u16;
+            for k in 1..w {
+                if x + k < width {
+                    let mut covered = c.clone();
+                    covered.set_symbol(" ");
+                    cells.push((x + k, y, covered));
+                }
+            }
+        }
+        self.inner.draw(cells.iter().map(|(x, y, c)| (*x, *y, c)))
     }
 
     fn hide_cursor(&mut self) -> io::Result<()> {
